@@ -98,7 +98,7 @@ def decorate(draw, ps, prefix):
     directions = []
     nd = draw(st.integers(0, 3))
     for _ in range(nd):
-        kind = draw(st.sampled_from(["dyn", "dyn", "wedge", "words"]))
+        kind = draw(st.sampled_from(["dyn", "dyn", "wedge", "words", "pedal", "dashes"]))
         t = draw(st.sampled_from(onsets)) if onsets else 0
         staff = draw(st.sampled_from([None, None, 1, 2]))
         if kind == "dyn":
@@ -106,6 +106,15 @@ def decorate(draw, ps, prefix):
         elif kind == "wedge":
             later = [x for x in onsets if x > t] + [ps["end"]]
             directions.append({"k": "wedge", "text": draw(st.sampled_from(["crescendo", "diminuendo"])), "t": t, "end": draw(st.sampled_from(later)), "staff": None})
+        elif kind == "pedal":
+            later = [x for x in onsets if x > t] + [ps["end"]]
+            e = draw(st.sampled_from(later))
+            # (one pedal: MusicXML pedal marks as written carry no number, spans of one part do not overlap)
+            if not any(x["k"] == "pedal" and x["t"] < e and t < x["end"] for x in directions):
+                directions.append({"k": "pedal", "line": draw(st.booleans()), "t": t, "end": e, "staff": staff})
+        elif kind == "dashes":
+            later = [x for x in onsets if x > t] + [ps["end"]]
+            directions.append({"k": "dashes", "text": draw(st.sampled_from(["cresc.", "dim.", "rit.", "accel."])), "t": t, "end": draw(st.sampled_from(later)), "staff": None})
         else:
             directions.append({"k": "words", "text": draw(st.sampled_from(WORDS)), "t": t, "staff": None})
     ps["directions"] = directions
@@ -186,6 +195,11 @@ def build(sspec):
             elif d["k"] == "wedge":
                 cls = S.IncreasingLoudnessDirection if d["text"] == "crescendo" else S.DecreasingLoudnessDirection
                 p.add(cls(d["text"], wedge=True), d["t"], d["end"])
+            elif d["k"] == "pedal":
+                p.add(S.SustainPedalDirection(line=d["line"], staff=d["staff"]), d["t"], d["end"])
+            elif d["k"] == "dashes":
+                for ob in parse_direction(d["text"]):
+                    p.add(ob, d["t"], d["end"] if isinstance(ob, S.DynamicDirection) else None)
             else:
                 for ob in parse_direction(d["text"]):
                     p.add(ob, d["t"])
@@ -324,7 +338,7 @@ def fingerprint(score):
         d["tempos"] = sorted((o.start.t, int(round(float(Fraction(o.bpm) * {None: 1, "q": 1, "h": 2, "e": Fraction(1, 2), "q.": Fraction(3, 2)}[o.unit])))) for o in p.iter_all(S.Tempo))
         dirs = []
         for o in p.iter_all(S.Direction, include_subclasses=True):
-            dirs.append((type(o).__name__, o.text, o.start.t, o.end.t if o.end is not None else None, o.staff or 1))
+            dirs.append((type(o).__name__, o.text, o.start.t, o.end.t if o.end is not None else None, o.staff or 1, getattr(o, "line", None)))
         for o in p.iter_all(S.Words):
             dirs.append(("Words", o.text, o.start.t, None, o.staff or 1))
         d["directions"] = sorted(dirs, key=repr)
@@ -388,6 +402,9 @@ def oracle(spec):
         feats["tempo"] += bool(ps.get("tempos"))
         feats["directions"] += bool(ps.get("directions"))
         feats["repeat"] += bool(ps.get("repeats"))
+        bars_ = [m[0] for m in ps["measures"]]
+        feats["pedal"] += any(d["k"] == "pedal" for d in ps.get("directions", []))
+        feats["range-direction-over-barline"] += any(d.get("end") is not None and any(d["t"] < b < d["end"] for b in bars_) for d in ps.get("directions", []))
         feats["unpitched"] += any(n["kind"] == "unpitched" for n in ps["notes"])
         slots = defaultdict(set)
         for n in ps["notes"]:
@@ -480,8 +497,8 @@ SUBCHECKS = [
         oracle,
         strategy=lambda tier: score_spec(tier),
         budget={"quick": 120, "thorough": 3000},
-        rule="generated scores (1-3 parts, nested part groups, 1-2 staves, 1-3 voices, mid-bar division/signature/clef changes, pickups, irregular bars, tie chains over bar lines, tuplets, grace runs, slurs, articulations, stems, fermatas, fingering, unpitched notes, dynamics, wedges, words, tempo marks, repeats, endings) saved, read by an independent XML walk, re-loaded and re-saved; non-trivial = >=2 voices or staves, a tie over a bar line, or a mid-bar attribute change",
+        rule="generated scores (1-3 parts, nested part groups, 1-2 staves, 1-3 voices, mid-bar division/signature/clef changes, pickups, irregular bars, tie chains over bar lines, tuplets, grace runs, slurs, articulations, stems, fermatas, fingering, unpitched notes, dynamics, wedges, words with and without dashes, pedal marks, tempo marks, repeats, endings) saved, read by an independent XML walk, re-loaded and re-saved; non-trivial = >=2 voices or staves, a tie over a bar line, or a mid-bar attribute change",
         known={"voice-reassigned-for-polyphony-in-voice": known_voice, "first-page-print-added-on-reexport": known_print},
-        floors={"multi-voice-or-staff": 0.2, "tie-over-barline": 0.05, "mid-bar-change": 0.1},
+        floors={"multi-voice-or-staff": 0.2, "tie-over-barline": 0.05, "mid-bar-change": 0.1, "pedal": 0.05, "range-direction-over-barline": 0.03},
     ),
 ]
